@@ -147,11 +147,11 @@ func ProfileByName(n string) *Profile { return profiles[n] }
 
 // RunOpts selects between generation and replay.
 type RunOpts struct {
-	Seed     uint64
-	Config   *RunConfig // replay: the recorded configuration
-	Trace    []Step     // replay: the recorded steps
-	Replay   bool
-	KeepLog  bool
+	Seed      uint64
+	Config    *RunConfig // replay: the recorded configuration
+	Trace     []Step     // replay: the recorded steps
+	Replay    bool
+	KeepLog   bool
 	KeepTrace bool
 }
 
@@ -381,7 +381,7 @@ func (rc *RunCtx) Quiesce() *Violation {
 				}
 				if sr.Out != "ok" {
 					return &Violation{Property: rc.P.Property, Oracle: "quiescent_sync_succeeds",
-						Class: "qsync_failed:" + describe(&StepResult{Out: sr.Out, Err: sr.Err}),
+						Class:  "qsync_failed:" + describe(&StepResult{Out: sr.Out, Err: sr.Err}),
 						Detail: fmt.Sprintf("client %d doc %d: sync in quiescent round %d failed: %v", sc.Idx, d, round, sr.Err), Step: rc.I}
 				}
 				for _, m := range rc.Mons {
